@@ -326,10 +326,41 @@ def driver(profile='dev'):
     return _DRIVER[profile]
 
 
-def run_batch(lines, profile='dev'):
-    p = subprocess.run([driver(profile)], input='\n'.join(lines) + '\n', stdout=subprocess.PIPE, stderr=subprocess.DEVNULL,
-                       text=True)
-    return p.stdout.splitlines()
+def _is_extreme(x):
+    """operand text -> is it one of 0, +-1, +-2 or an end of a primitive integer range (in any scale)?"""
+    f = x.split(':')
+    try:
+        v = int(f[1])
+    except Exception:
+        return False
+    if abs(v) <= 2:
+        return True
+    a = abs(v)
+    return any(a in (2 ** (b - 1) - 1, 2 ** (b - 1), 2 ** (b - 1) - 2, 2 ** b - 1) for b in (8, 16, 32, 64, 128))
+
+
+def run_batch(lines, profile='dev', _depth=0):
+    """one output line per input line.  A call of the real crate that does not return (a changed loop that no
+    longer terminates) is reported as the outcome `HANG` for that line; the rest of the batch is run in a fresh
+    driver process (at most three hangs per batch, then `SKIPPED`)."""
+    if not lines:
+        return []
+    limit = 30 + len(lines) / 2000.0
+    try:
+        p = subprocess.run([driver(profile)], input='\n'.join(lines) + '\n', stdout=subprocess.PIPE, stderr=subprocess.DEVNULL,
+                           text=True, timeout=limit)
+        return p.stdout.splitlines()
+    except subprocess.TimeoutExpired as ex:
+        got = ex.stdout or ''
+        if isinstance(got, bytes):
+            got = got.decode('utf-8', 'replace')
+        done = got.split('\n')[:-1] if not got.endswith('\n') else got.splitlines()
+        k = len(done)
+        out = done + ['HANG']
+        rest = lines[k + 1:]
+        if _depth >= 2:
+            return out + ['SKIPPED'] * len(rest)
+        return out + run_batch(rest, profile, _depth + 1)
 
 
 ROUNDING_OPS = ('mul', 'div', 'div_rounded', 'mul_rounded', 'round', 'checked_round', 'format', 'mul_assign', 'div_assign',
@@ -381,6 +412,17 @@ def _search(pid, r, d, key, tier, seed, profile_pair=None, budget=None, combos=N
                     m = 'RoundHalfEven' if len(modes) <= 2 else rng.choice(modes)
                     lines.append('\t'.join([op, l, rr, str(n), m, precs[0]]))
                     metas.append((op, l, rr, n, m, precs[0]))
+                # the extreme values of both sides are crossed exhaustively (not sampled): differences of one unit
+                # at the ends of the coefficient range need one specific partner
+                if rk:
+                    ext_l = [x for x in ls if _is_extreme(x)][:40]
+                    ext_r = [x for x in rs if _is_extreme(x)][:40]
+                    for l in ext_l:
+                        for rr in ext_r:
+                            n = ns[0] if len(ns) == 1 else rng.choice(ns)
+                            m = 'RoundHalfEven' if len(modes) <= 2 else rng.choice(modes)
+                            lines.append('\t'.join([op, l, rr, str(n), m, precs[0]]))
+                            metas.append((op, l, rr, n, m, precs[0]))
                 for l in ls:
                     for rr in rng.sample(rs, min(len(rs), 12)):
                         for n in (ns if len(ns) <= 3 else rng.sample(ns, 4)):
@@ -408,7 +450,7 @@ def compare(lines, metas, profile_pair=None):
         return None
     outs = run_batch(lines, 'rkyv' if (metas and metas[0][0].startswith('rkyv_')) else 'serde' if (metas and metas[0][0].startswith('serde_')) else 'dev')
     for (op, l, rr, n, m, pr), got in zip(metas, outs):
-        if got in ('BADARG', 'BADOP'):
+        if got in ('BADARG', 'BADOP', 'SKIPPED'):
             continue
         try:
             lo = oracle.Operand(l) if l != '-' else None
